@@ -220,6 +220,33 @@ def sweep(tier: str) -> Sweep:
                     sw.check(got == ", ".join(objs[nm].string for nm in names), "a group does not read back its members' default-format renderings",
                              {"clause": "same-names", "decl": [f"{a}:{b}" for a, b in zip(names, kinds)], "fmt": fmt, "text": text}, ", ".join(objs[nm].string for nm in names), got)
                     results[key] = got
+    # ANY member format - redundant or partial directive lists included: the member of the parsed group is exactly what
+    # the member's own formatter makes of its own slice (same value, or refused alike), never more strict, never less
+    for _ in range(400 if tier == "quick" else 4000):
+        kind = r.choice(["datetime", "datetime", "storage", "serial", "version", "naming"])
+        cls = corr_fmt.KINDS[kind]
+        mfmt = corr_fmt.rand_fmt(r, kind, k=r.randint(2, 4), weird=0.0)
+        if "{" in mfmt or "}" in mfmt:
+            continue
+        try:
+            text = gen_fmt.make_obj(kind, corr_fmt.rand_member_value(r, kind)).format(mfmt)
+        except Exception:  # noqa: BLE001
+            continue
+        G = make_group({"m": cls, "other": corr_fmt.KINDS["serial"]})
+        def outcome(fn):
+            try:
+                return ("ok", fn())
+            except FormatterError as e:
+                return ("err", "FormatterError")
+            except Exception as e:  # noqa: BLE001
+                return ("foreign", type(e).__name__)
+        own = outcome(lambda: cls.parse(text, mfmt).value)
+        grp = outcome(lambda: G.parse(text, "{m:" + mfmt + "}").groups["m"].value)
+        case = {"clause": "own-slice", "cls": kind, "fmt": mfmt, "text": text}
+        sw.note(["own-slice", kind, mfmt, text], "own-slice-" + own[0])
+        if own[0] == "foreign" or grp[0] == "foreign":
+            continue   # exceptions outside the family are C06's business
+        sw.check(own == grp, "the member of the parsed group is not what the member's own formatter reads from its slice", case, str(own), str(grp))
     # occurrences are merged and must agree - also when a directive is repeated inside an occurrence that is itself
     # repeated: whichever single position states another value, the string is refused
     for name, G, d, fmt, text, bad, t1 in corr_fmt.group_inner_repeats():
